@@ -16,7 +16,7 @@ from hypothesis import strategies as st
 from vf.core import Part, Violation, call
 
 PROPERTY = "C20"
-RULE = ("Also: variable_indices with the documented plain strings 'bool'/'int'; tuple ids for integer_ndarray.from_list; A of a rank-3 stack of systems. Hypothesis draws duplicate-free variable lists (1-7 variables) whose ids are strings (incl. '', blanks, "
+RULE = ("Id pool incl. LOOK-ALIKE ids (one letter precomposed / combining / compatibility form, surrounding blanks, tab, case, full-width); linalg matrices incl. entries at 32767/32768/-32769/4*10^4/2^31/2^40. Also: variable_indices with the documented plain strings 'bool'/'int'; tuple ids for integer_ndarray.from_list; A of a rank-3 stack of systems. Hypothesis draws duplicate-free variable lists (1-7 variables) whose ids are strings (incl. '', blanks, "
         "digits-only and unicode), ints and tuples of ints/strings, with bounds (0,1) for about half of them and "
         "arbitrary lo<=hi (|.|<=10^4, incl. constants and (1,1)) otherwise. construct: a value dictionary over a "
         "random subset of the known ids plus unknown ids (fresh ids, string/int twins of known ids, column positions), "
